@@ -1,0 +1,23 @@
+//go:build verif
+// +build verif
+
+package main
+
+// Contracts for the deductive verifier in /verif (govc). Comment-only file.
+
+// ---- C17: order of the hand-over as the new instance drives it ----------------------------------------------
+
+//@ func (*instance).Run
+//@   prop C17
+//@   requires inst != nil && inst.ctl != nil && inst.Restarter != nil
+//@   modifies all, childsteps, childlast, ctlstarted
+//@   callpre ShutdownParentAdmin @the-own-controller-runs-before-the-parent-is-asked-to-give-up-its-admin-port ctlstarted
+//@   assume @before:DrainParentListeners inst.Restarter != nil
+//@   callpre DrainParentListeners @the-parent-is-asked-to-drain-only-after-it-gave-up-the-admin-port-and-the-controller-runs ctlstarted && childlast == 1 && childsteps == old(childsteps) + 1
+
+//@ func (*instance).Run$1
+//@   prop C17
+//@   requires childlast == 3
+//@   assume @before:TerminateParent deref(inst) != nil && deref(inst).Restarter != nil
+//@   modifies all, childsteps, childlast
+//@   callpre TerminateParent @the-parent-is-terminated-last childlast == 3
